@@ -31,6 +31,12 @@ use self::packet::BtpHdr;
 
 mod packet;
 
+/// Verification hook: re-export of the (private) BTP packet header / handshake codecs.
+#[cfg(feature = "verif")]
+pub mod verif_packet {
+    pub use super::packet::*;
+}
+
 /// Matter Core spec constant:
 /// The maximum amount of time after receipt of a segment before a stand-alone ACK must be sent.
 pub(crate) const BTP_ACK_TIMEOUT_SECS: u8 = BTP_CONN_IDLE_TIMEOUT_SECS / 2;
